@@ -543,3 +543,307 @@ T('pB2_twin_sentinel_state_alias', ['C06'], (R, _HS, _HS_ALIAS))
 B('pB2_sentinel_state_alias_first_error', ['C06'], 'R06.c', (R, _HS, _HS_ALIAS.replace('parked[-1]', 'parked[0]')))
 B('pB2_sentinel_state_alias_405_first', ['C06'], 'R06.c',
   (R, _HS, "        state = _dispatch_state\n" + _HS_405.replace('_dispatch_state', 'state') + _HS_EXC.replace('_dispatch_state', 'state') + _HS_404))
+
+# ============================================================================================== fourth pass
+# ---------------------------------------------------------------------------------------------- DispatchState starts empty, per instance (R06.c)
+_DS_CLS = "class DispatchState(object):\n"
+_DS_INIT = "    def __init__(self):\n        self.exceptions = []\n        self.allowed_methods = set()\n        self.attempted_routes = []\n"
+_DS_DECO = "@attr.s(eq=False, repr=False)\n" + _DS_CLS
+
+
+def _ds_fields(exc='attr.ib(factory=list)', am='attr.ib(factory=set)'):
+    return "    exceptions = %s\n    allowed_methods = %s\n    attempted_routes = attr.ib(factory=list)\n" % (exc, am)
+
+
+T('pB4_twin_state_declared_factories', ['C06', 'C07', 'C08'], (A, _DS_CLS, _DS_DECO), (A, _DS_INIT, _ds_fields()))
+T('pB4_twin_state_declared_factory_objects', ['C06', 'C07', 'C08'], (A, _DS_CLS, _DS_DECO),
+  (A, _DS_INIT, _ds_fields('attr.ib(default=attr.Factory(list))', 'attr.ib(default=attr.Factory(set))')))
+T('pB4_twin_state_list_call', ['C06', 'C08'], (A, "        self.exceptions = []\n", "        self.exceptions = list()\n"))
+B('pB4_state_declared_shared_list', ['C06'], 'R06.c', (A, _DS_CLS, _DS_DECO), (A, _DS_INIT, _ds_fields(exc='attr.ib(default=[])')))
+B('pB4_state_declared_shared_set', ['C06'], 'R06.c', (A, _DS_CLS, _DS_DECO), (A, _DS_INIT, _ds_fields(am='attr.ib(default=set())')))
+B('pB4_state_class_level_list', ['C06'], 'R06.c',
+  (A, _DS_INIT, "    exceptions = []\n\n    def __init__(self):\n        self.allowed_methods = set()\n        self.attempted_routes = []\n"))
+B('pB4_state_parameter_default', ['C06'], 'R06.c',
+  (A, _DS_INIT, "    def __init__(self, exceptions=[]):\n        self.exceptions = exceptions\n        self.allowed_methods = set()\n        self.attempted_routes = []\n"))
+
+# ---------------------------------------------------------------------------------------------- the sentinel decision (R06.c, R08.i)
+_HS_HEAD = "        err_handler = _application.error_handler\n"
+_DS_REPR = "    def __repr__(self):\n        args = (self.__class__.__name__, self.exceptions, self.allowed_methods)\n"
+_ST_EXC = "        if self.exceptions:\n            return self.exceptions[-1]\n"
+_ST_405 = ("        if self.allowed_methods:\n            mna_type = err_handler.method_not_allowed_type\n"
+           "            return mna_type(allowed_methods=self.allowed_methods)\n")
+_ST_404 = "        nf_type = err_handler.not_found_type\n        return nf_type(dispatch_state=self, request=request, application=application)\n\n"
+
+
+def _state_decides(*steps):
+    return "    def final_error(self, request, application):\n        err_handler = application.error_handler\n" + ''.join(steps)
+
+
+_DELEGATE = (R, _HS_HEAD + _HS, "        return _dispatch_state.final_error(request, _application)\n")
+T('pB4_twin_sentinel_decided_by_state', ['C06', 'C08'], _DELEGATE, (A, _DS_REPR, _state_decides(_ST_EXC, _ST_405, _ST_404) + _DS_REPR))
+B('pB4_state_decides_405_first', ['C06', 'C08'], {'C06': 'R06.c', 'C08': 'R08.i'}, _DELEGATE,
+  (A, _DS_REPR, _state_decides(_ST_405, _ST_EXC, _ST_404) + _DS_REPR))
+B('pB4_state_decides_first_error', ['C06'], 'R06.c', _DELEGATE,
+  (A, _DS_REPR, _state_decides(_ST_EXC.replace('[-1]', '[0]'), _ST_405, _ST_404) + _DS_REPR))
+B('pB4_sentinel_405_before_errors', ['C08'], 'R08.i', (R, _HS, _HS_405 + _HS_EXC + _HS_404))
+B('pB4_sentinel_errors_only_without_methods', ['C06', 'C08'], {'C06': 'R06.c', 'C08': 'R08.i'},
+  (R, _HS, "        parked = _dispatch_state.exceptions\n        if parked and not _dispatch_state.allowed_methods:\n            return parked[-1]\n" + _HS_405 + _HS_404))
+B('pB4_sentinel_404_before_errors', ['C06', 'C08'], {'C06': 'R06.c', 'C08': 'R08.i'},
+  (R, _HS, "        if not _dispatch_state.allowed_methods:\n            nf_type = err_handler.not_found_type\n"
+           "            return nf_type(dispatch_state=_dispatch_state, request=request, application=_application)\n" + _HS_EXC +
+           "        mna_type = err_handler.method_not_allowed_type\n        return mna_type(allowed_methods=_dispatch_state.allowed_methods)\n"))
+_NULL_INIT = "        super(NullRoute, self).__init__('/<_ignored*>',\n"
+_NULL_CLS = "class NullRoute(Route):\n"
+T('pB4_twin_null_pattern_constant', ['C06', 'C07'], (R, _NULL_INIT, "        super(NullRoute, self).__init__(_NULL_PATTERN,\n"),
+  (R, _NULL_CLS, "_NULL_PATTERN = '/<_ignored*>'\n\n\n" + _NULL_CLS))
+B('pB4_null_pattern_constant_one_segment', ['C06'], 'R06.c', (R, _NULL_INIT, "        super(NullRoute, self).__init__(_NULL_PATTERN,\n"),
+  (R, _NULL_CLS, "_NULL_PATTERN = '/<_ignored>'\n\n\n" + _NULL_CLS))
+
+# ---------------------------------------------------------------------------------------------- implied methods as a table (R06.d)
+_GETHEAD = "            if 'GET' in self.methods:\n                self.methods.add('HEAD')\n"
+_HM = "HTTP_METHODS = set(['GET', 'HEAD', 'POST', 'PUT', 'DELETE',\n"
+_IMPL_LOOP = "            for listed, implied in _IMPLIED_METHODS:\n                if listed in self.methods:\n                    self.methods.add(implied)\n"
+T('pB4_twin_implied_methods_table', ['C06', 'C07'], (R, _GETHEAD, _IMPL_LOOP), (R, _HM, "_IMPLIED_METHODS = (('GET', 'HEAD'),)\n" + _HM))
+T('pB4_twin_implied_methods_mapping', ['C06'], (R, _GETHEAD, _IMPL_LOOP.replace('_IMPLIED_METHODS', '_IMPLIED_METHODS.items()')),
+  (R, _HM, "_IMPLIED_METHODS = {'GET': 'HEAD'}\n" + _HM))
+B('pB4_implied_table_pair_swapped', ['C06'], 'R06.d', (R, _GETHEAD, _IMPL_LOOP), (R, _HM, "_IMPLIED_METHODS = (('HEAD', 'GET'),)\n" + _HM))
+B('pB4_implied_table_extra_row', ['C06'], 'R06.d', (R, _GETHEAD, _IMPL_LOOP),
+  (R, _HM, "_IMPLIED_METHODS = (('GET', 'HEAD'), ('POST', 'PUT'))\n" + _HM))
+B('pB4_implied_table_unconditional', ['C06'], 'R06.d',
+  (R, _GETHEAD, "            for listed, implied in _IMPLIED_METHODS:\n                self.methods.add(implied)\n"),
+  (R, _HM, "_IMPLIED_METHODS = (('GET', 'HEAD'),)\n" + _HM))
+B('pB4_implied_table_read_backwards', ['C06'], 'R06.d',
+  (R, _GETHEAD, "            for listed, implied in _IMPLIED_METHODS:\n                if implied in self.methods:\n                    self.methods.add(listed)\n"),
+  (R, _HM, "_IMPLIED_METHODS = (('GET', 'HEAD'),)\n" + _HM))
+
+# ---------------------------------------------------------------------------------------------- the end of the loop body as a flag (R06.b)
+_TAIL_FULL = ("            if not isinstance(ret, HTTPException):\n                # TODO: verify behavior\n                break\n"
+              "            if not getattr(ret, 'source_route', None):\n                ret.source_route = route\n" + _TAIL)
+
+
+def _flagged(nonhttp='True', breaking='True', record="                    dispatch_state.add_exception(ret)\n", test='if done:'):
+    return ("            if not isinstance(ret, HTTPException):\n                done = " + nonhttp + "\n            else:\n"
+            "                if not getattr(ret, 'source_route', None):\n                    ret.source_route = route\n"
+            "                if getattr(ret, 'is_breaking', True):\n                    done = " + breaking + "\n                else:\n" + record +
+            "                    done = False\n            " + test + "\n                break\n")
+
+
+T('pB4_twin_loop_exit_flag', ['C06', 'C07', 'C08'], (A, _TAIL_FULL, _flagged()))
+B('pB4_flag_error_not_recorded', ['C06'], 'R06.b', (A, _TAIL_FULL, _flagged(record='')))
+B('pB4_flag_non_http_result_falls_through', ['C06'], 'R06.b', (A, _TAIL_FULL, _flagged(nonhttp='False')))
+B('pB4_flag_breaking_error_falls_through', ['C06'], 'R06.b', (A, _TAIL_FULL, _flagged(breaking='False')))
+B('pB4_flag_test_inverted', ['C06'], 'R06.b', (A, _TAIL_FULL, _flagged(test='if not done:')))
+
+# ---------------------------------------------------------------------------------------------- normalize_path through itertools.chain (R07.d)
+_IMP = "from boltons.iterutils import first\n"
+
+
+def _np_chain(lead="('',), ", trailer="('',) if is_branch else ()", chain='chain'):
+    return ("    segments = [x for x in path.split('/') if x]\n    if not segments:\n        return '/'\n    trailer = " + trailer + "\n"
+            "    return '/'.join(" + chain + "(" + lead + "segments, trailer))\n")
+
+
+T('pB4_twin_normalize_chain', ['C07'], (R, _IMP, "from itertools import chain\n" + _IMP), (R, _NP, _np_chain()))
+T('pB4_twin_normalize_itertools_chain', ['C07'], (R, _IMP, "import itertools\n" + _IMP), (R, _NP, _np_chain(chain='itertools.chain')))
+B('pB4_normalize_chain_always_trailing', ['C07'], 'R07.d', (R, _IMP, "from itertools import chain\n" + _IMP), (R, _NP, _np_chain(trailer="('',)")))
+B('pB4_normalize_chain_no_leading', ['C07'], 'R07.d', (R, _IMP, "from itertools import chain\n" + _IMP), (R, _NP, _np_chain(lead='')))
+B('pB4_normalize_chain_trailing_inverted', ['C07'], 'R07.d', (R, _IMP, "from itertools import chain\n" + _IMP),
+  (R, _NP, _np_chain(trailer="() if is_branch else ('',)")))
+B('pB4_normalize_chain_two_leading', ['C07'], 'R07.d', (R, _IMP, "from itertools import chain\n" + _IMP), (R, _NP, _np_chain(lead="('', ''), ")))
+
+# ---------------------------------------------------------------------------------------------- slash handling looked up in a table of handlers
+_CAST = "def cast_to_route_factory(in_arg):\n"
+
+
+def _handlers(rows="((S_REDIRECT, _slash_redirect), (S_STRICT, _slash_not_found))", hand_out="return redirect(''.join(parts))"):
+    return ("def _slash_redirect(app, route, request, norm_path, err_handler, dispatch_state):\n"
+            "    query = request.query_string\n    try:\n        query = query.decode('utf8')\n    except UnicodeDecodeError:\n"
+            "        query = url_quote(query, safe=_QUERY_SAFE)\n"
+            "    parts = [request.url_root.rstrip('/'), url_quote(norm_path), '?', query]\n    " + hand_out + "\n\n\n"
+            "def _slash_not_found(app, route, request, norm_path, err_handler, dispatch_state):\n"
+            "    nf_exc = err_handler.not_found_type(request=request, application=app, source_route=route)\n"
+            "    dispatch_state.add_exception(nf_exc)\n    return None\n\n\n"
+            "_SLASH_HANDLERS = " + rows + "\n\n\n"
+            "def _get_slash_handler(slash_mode):\n"
+            "    return next((handler for mode, handler in _SLASH_HANDLERS if slash_mode == mode), None)\n\n\n" + _CAST)
+
+
+def _by_table(after="                        continue\n"):
+    return ("            if route.is_branch:\n                norm_path = normalize_path(url_path, route.is_branch)\n"
+            "                if norm_path != url_path:\n                    handle_slashes = _get_slash_handler(route.slash_mode)\n"
+            "                    if handle_slashes is not None:\n"
+            "                        slash_resp = handle_slashes(self, route, request, norm_path, err_handler, dispatch_state)\n"
+            "                        if slash_resp is not None:\n                            return slash_resp\n" + after)
+
+
+T('pB4_twin_slash_handler_table', ['C06', 'C07', 'C08'], (A, _CAST, _handlers()), (A, _SLASH, _by_table()))
+B('pB4_slash_table_handlers_swapped', ['C07'], 'R07.a',
+  (A, _CAST, _handlers(rows="((S_REDIRECT, _slash_not_found), (S_STRICT, _slash_redirect))")), (A, _SLASH, _by_table()))
+B('pB4_slash_table_redirect_for_both_modes', ['C07'], 'R07.a',
+  (A, _CAST, _handlers(rows="((S_REDIRECT, _slash_redirect), (S_STRICT, _slash_redirect))")), (A, _SLASH, _by_table()))
+B('pB4_slash_table_redirect_not_handed_back', ['C07'], 'R07.a', (A, _CAST, _handlers(hand_out="redirect(''.join(parts))")), (A, _SLASH, _by_table()))
+B('pB4_slash_table_strict_goes_on_to_execute', ['C07'], 'R07.a', (A, _CAST, _handlers()), (A, _SLASH, _by_table(after='')))
+
+# ---------------------------------------------------------------------------------------------- the candidates from a generator method
+_LOOP_HEAD = (_LOOP + "            path_params = route.match_path(url_path)\n            if path_params is None:\n                continue\n"
+              "            request.path_params = path_params\n            params = dict(base_params, **path_params)\n")
+
+
+def _gen(iterable='self.routes + [self._null_route]', guard="            if path_params is None:\n                continue\n",
+         params='dict(base_params, **path_params)'):
+    return ("    def _iter_path_matches(self, request, url_path, base_params):\n        for route in " + iterable + ":\n"
+            "            path_params = route.match_path(url_path)\n" + guard +
+            "            request.path_params = path_params\n            yield route, " + params + "\n\n" + _DISPATCH_DEF)
+
+
+_GEN_LOOP = (A, _LOOP_HEAD, "        for route, params in self._iter_path_matches(request, url_path, base_params):\n")
+T('pB4_twin_candidates_generator', ['C06', 'C07', 'C08'], (A, _DISPATCH_DEF, _gen()), _GEN_LOOP)
+B('pB4_generator_walks_routes_backwards', ['C06'], 'R06.a', (A, _DISPATCH_DEF, _gen(iterable='reversed(self.routes + [self._null_route])')), _GEN_LOOP)
+B('pB4_generator_hands_out_unmatched_routes', ['C06'], 'R06.b',
+  (A, _DISPATCH_DEF, _gen(guard='', params='dict(base_params, **(path_params or {}))')), _GEN_LOOP)
+
+# ---------------------------------------------------------------------------------------------- bind options in a named-tuple record (R07.c)
+_POPS = ("        prefix = kwargs.pop('prefix', '')\n        rebind_render = kwargs.pop('rebind_render', True)\n"
+         "        inherit_slashes = kwargs.pop('inherit_slashes', True)\n        rebind_render_error = kwargs.pop('rebind_render_error', True)\n"
+         "        if kwargs:\n            raise TypeError('unexpected keyword args: %r' % kwargs.keys())\n")
+_BR_CLS = "class BoundRoute(object):\n"
+
+
+def _options(inherit="kwargs.pop('inherit_slashes', True)", rebind="kwargs.pop('rebind_render', True)"):
+    return ("class _BindOptions(namedtuple('_BindOptions', ['prefix', 'rebind_render', 'inherit_slashes', 'rebind_render_error'])):\n"
+            "    __slots__ = ()\n\n    @classmethod\n    def from_kwargs(cls, kwargs):\n"
+            "        opts = cls(prefix=kwargs.pop('prefix', ''), rebind_render=" + rebind + ",\n"
+            "                   inherit_slashes=" + inherit + ",\n"
+            "                   rebind_render_error=kwargs.pop('rebind_render_error', True))\n"
+            "        if kwargs:\n            raise TypeError('unexpected keyword args: %r' % kwargs.keys())\n        return opts\n\n\n" + _BR_CLS)
+
+
+_USE_OPTS = (R, _POPS, "        opts = _BindOptions.from_kwargs(kwargs)\n        prefix, rebind_render = opts.prefix, opts.rebind_render\n"
+                       "        inherit_slashes = opts.inherit_slashes\n        rebind_render_error = opts.rebind_render_error\n")
+_NT_IMP = (R, _IMP, "from collections import namedtuple\n" + _IMP)
+T('pB4_twin_bind_options_record', ['C07'], _NT_IMP, (R, _BR_CLS, _options()), _USE_OPTS)
+B('pB4_bind_options_record_default_off', ['C07'], 'R07.c', _NT_IMP, (R, _BR_CLS, _options(inherit="kwargs.pop('inherit_slashes', False)")), _USE_OPTS)
+B('pB4_bind_options_record_misnamed_key', ['C07'], 'R07.c', _NT_IMP, (R, _BR_CLS, _options(inherit="kwargs.pop('inherit_slash', True)")), _USE_OPTS)
+B('pB4_bind_options_record_fields_crossed', ['C07'], 'R07.c', _NT_IMP,
+  (R, _BR_CLS, _options(inherit="kwargs.pop('rebind_render', True)", rebind="kwargs.pop('inherit_slashes', True)")), _USE_OPTS)
+
+# ---------------------------------------------------------------------------------------------- a route's method set is fixed after set-up (R07.e)
+_UM = "    def update_methods(self, methods):\n        if methods:\n            self.allowed_methods.update(methods)\n"
+_UM_HEAD = "    def update_methods(self, methods):\n"
+T('pB4_twin_update_methods_guard_clause', ['C06', 'C07', 'C08'], (A, _UM, _UM_HEAD + "        if not methods:\n            return\n        self.allowed_methods.update(methods)\n"))
+T('pB4_twin_update_methods_union_of_copy', ['C07', 'C08'], (A, _UM, _UM_HEAD + "        if methods:\n            self.allowed_methods |= set(methods)\n"))
+B('pB4_state_adopts_first_method_set', ['C07'], 'R07.e', (A, "        self.allowed_methods = set()\n", "        self.allowed_methods = frozenset()\n"),
+  (A, _UM, _UM_HEAD + "        if not methods:\n            return\n        if self.allowed_methods:\n            self.allowed_methods |= methods\n"
+                      "        else:\n            self.allowed_methods = methods\n"))
+B('pB4_state_adopts_then_updates', ['C07'], 'R07.e',
+  (A, _UM, _UM_HEAD + "        if not methods:\n            return\n        if not self.allowed_methods:\n            self.allowed_methods = methods\n"
+                      "        else:\n            self.allowed_methods.update(methods)\n"))
+B('pB4_update_methods_edits_what_it_is_handed', ['C07'], 'R07.e',
+  (A, _UM, _UM_HEAD + "        if methods:\n            methods.discard('HEAD')\n            self.allowed_methods.update(methods)\n"))
+B('pB4_dispatch_widens_the_route_methods', ['C07'], 'R07.e',
+  (A, "                dispatch_state.update_methods(route.methods)\n",
+      "                seen = route.methods\n                seen.add('OPTIONS')\n                dispatch_state.update_methods(seen)\n"))
+B('pB4_match_method_renormalises_in_place', ['C07'], 'R07.e',
+  (R, _MM, "        if method and self.methods:\n            self.methods = set(m.upper() for m in self.methods)\n"
+           "            if method.upper() not in self.methods:\n                return False\n        return True\n"))
+
+# ---------------------------------------------------------------------------------------------- what a re-raising handler lets out (R08.c)
+_RR = "        if self.reraise_uncaught:\n            raise\n"
+_RR_IF = "        if self.reraise_uncaught:\n"
+_REPL = "    def uncaught_to_response(self, **kwargs):\n        raise\n"
+_EH_CLS = "class ErrorHandler(object):\n"
+
+
+def _reraiser(what='value.with_traceback(tb)'):
+    return "def reraise_current(tp, value, tb=None):\n    raise " + what + "\n\n\n" + _EH_CLS
+
+
+_VIA = (E, _RR, _RR_IF + "            reraise_current(*sys.exc_info())\n")
+T('pB4_twin_reraise_the_instance', ['C08'], (E, _RR, _RR_IF + "            raise kwargs['_error']\n"))
+T('pB4_twin_reraise_with_traceback', ['C08'], (E, _RR, _RR_IF + "            _, exc_value, exc_tb = sys.exc_info()\n            raise exc_value.with_traceback(exc_tb)\n"))
+T('pB4_twin_reraise_helper_hands_on_the_value', ['C08'], (E, _EH_CLS, _reraiser()), _VIA)
+B('pB4_reraise_helper_builds_a_new_exception', ['C08'], 'R08.c', (E, _EH_CLS, _reraiser('tp(value).with_traceback(tb)')), _VIA)
+B('pB4_reraise_helper_raises_the_type', ['C08'], 'R08.c', (E, _EH_CLS, _reraiser('tp')), _VIA)
+B('pB4_reraise_helper_given_the_parts_in_another_order', ['C08'], 'R08.c', (E, _EH_CLS, _reraiser()),
+  (E, _RR, _RR_IF + "            tp, value, tb = sys.exc_info()\n            reraise_current(value, tp, tb)\n"))
+B('pB4_reraise_wrapped_in_runtime_error', ['C08'], 'R08.c', (E, _RR, _RR_IF + "            raise RuntimeError('uncaught: %r' % (kwargs.get('_error'),))\n"))
+B('pB4_reraise_type_rebuilt_from_text', ['C08'], 'R08.c',
+  (E, _RR, _RR_IF + "            exc_type, exc_value, exc_tb = sys.exc_info()\n            raise exc_type(str(exc_value))\n"))
+B('pB4_repl_handler_wraps_the_error', ['C08'], 'R08.c', (E, _REPL, "    def uncaught_to_response(self, **kwargs):\n        raise RuntimeError(repr(kwargs.get('_error')))\n"))
+B('pB4_reraise_helper_called_unconditionally', ['C08'], 'R08.c', (E, _EH_CLS, _reraiser()), (E, _RR, "        reraise_current(*sys.exc_info())\n"))
+
+# ---------------------------------------------------------------------------------------------- match_method asks about the request's own method (R06.d)
+_MM_HEAD = "    def match_method(self, method):\n"
+T('pB4_twin_match_method_upper_local', ['C06'],
+  (R, _MM, "        if method and self.methods:\n            wanted = method.upper()\n            if wanted not in self.methods:\n                return False\n        return True\n"))
+B('pB4_match_method_alias_replaces_request_method', ['C06'], 'R06.d',
+  (R, _MM, "        if method:\n            method = _METHOD_ALIASES.get(method.upper(), method)\n" + _MM),
+  (R, _HM, "_METHOD_ALIASES = {'HEAD': 'GET'}\n" + _HM))
+B('pB4_match_method_head_asked_as_get', ['C06'], 'R06.d', (R, _MM, "        if method and method.upper() == 'HEAD':\n            method = 'GET'\n" + _MM))
+B('pB4_match_method_truncated_request_method', ['C06'], 'R06.d', (R, _MM, "        method = (method or '').strip()[:4]\n" + _MM))
+
+# ---------------------------------------------------------------------------------------------- the canonical form is taken of the request path (R07.a)
+_PARTS = "                        parts = [request.url_root.rstrip('/'), url_quote(norm_path),\n                                 '?', query]\n"
+
+
+def _again(src, quote='url_quote(location_path)'):
+    return ("                        location_path = normalize_path(" + src + ", route.is_branch)\n"
+            "                        parts = [request.url_root.rstrip('/'), " + quote + ",\n                                 '?', query]\n")
+
+
+T('pB4_twin_canonical_path_computed_again', ['C06', 'C07', 'C08'], (A, _PARTS, _again('url_path')))
+B('pB4_canonical_form_of_the_raw_target', ['C07'], 'R07.a', (A, _PARTS, _again("request.environ.get('RAW_URI', url_path).partition('?')[0]", 'location_path')))
+B('pB4_canonical_form_of_the_quoted_path', ['C07'], 'R07.a', (A, _PARTS, _again('url_quote(url_path)', 'location_path')))
+B('pB4_canonical_form_of_the_lowercased_path', ['C07'], 'R07.a', (A, _PARTS, _again('url_path.lower()')))
+
+# ---------------------------------------------------------------------------------------------- optional fields of an error in the serialisers (R08.e)
+_EXC_TD = "        ret['exc_info'] = glom(self, T.exc_info.to_dict(), skip_exc=Exception)\n"
+T('pB4_twin_exc_info_guarded', ['C08'], (E, _EXC_TD, "        ret['exc_info'] = self.exc_info.to_dict() if self.exc_info is not None else None\n"))
+T('pB4_twin_exc_info_guard_statement', ['C08'],
+  (E, _EXC_TD, "        ret['exc_info'] = None\n        if self.exc_info:\n            ret['exc_info'] = self.exc_info.to_dict()\n"))
+T('pB4_twin_exc_info_attempt', ['C08'],
+  (E, _EXC_TD, "        try:\n            ret['exc_info'] = self.exc_info.to_dict()\n        except AttributeError:\n            ret['exc_info'] = None\n"))
+B('pB4_exc_info_dereferenced_blindly', ['C08'], 'R08.e', (E, _EXC_TD, "        ret['exc_info'] = self.exc_info.to_dict()\n"))
+B('pB4_exc_info_dereferenced_through_a_local', ['C08'], 'R08.e', (E, _EXC_TD, "        info = self.exc_info\n        ret['exc_info'] = info.to_dict()\n"))
+B('pB4_exc_info_guard_on_another_field', ['C08'], 'R08.e',
+  (E, _EXC_TD, "        ret['exc_info'] = self.exc_info.to_dict() if self.detail is not None else None\n"))
+B('pB4_source_route_pattern_in_every_error', ['C08'], 'R08.e',
+  (E, "               'error_type': self.error_type}\n        return ret\n", "               'error_type': self.error_type,\n               'route': self.source_route.pattern}\n        return ret\n"))
+
+# ---------------------------------------------------------------------------------------------- the last-resort renderer is self-contained (R08.a)
+_DRE = "    best_match = request.accept_mimetypes.best_match(MIME_SUPPORT_MAP)\n    _error.adapt(best_match)\n    return _error\n"
+_DRE_APP = ("    _application = kwargs.get('_application')\n    if _application is not None and _application.error_handler is not None:\n")
+T('pB4_twin_fallback_tries_the_handler_first', ['C08'],
+  (A, _DRE, _DRE_APP + "        try:\n            return _application.error_handler.render_error(request=request, _error=_error)\n"
+                       "        except Exception:\n            pass\n" + _DRE))
+T('pB4_twin_fallback_named_mimetype', ['C08'],
+  (A, _DRE, "    accepted = request.accept_mimetypes\n    mimetype = accepted.best_match(MIME_SUPPORT_MAP)\n    _error.adapt(mimetype)\n    return _error\n"))
+B('pB4_fallback_runs_the_applications_handler', ['C08'], 'R08.a',
+  (A, _DRE, _DRE_APP + "        return _application.error_handler.render_error(request=request, _error=_error)\n" + _DRE))
+B('pB4_fallback_instantiates_the_configured_handler_type', ['C08'], 'R08.a',
+  (A, _DRE, "    _application = kwargs.get('_application')\n    if _application is not None:\n        eh_type = _application.default_error_handler_type\n"
+            "        if eh_type is not ErrorHandler:\n            return eh_type().render_error(request=request, _error=_error)\n" + _DRE))
+B('pB4_fallback_asks_the_route_again', ['C08'], 'R08.a',
+  (A, _DRE, "    if getattr(_error, 'source_route', None) is not None and kwargs.get('retry'):\n"
+            "        return _error.source_route.execute_error(request=request, _error=_error, **kwargs)\n" + _DRE))
+B('pB4_fallback_calls_a_hook_from_the_keywords', ['C08'], 'R08.a',
+  (A, _DRE, "    hook = kwargs.get('_on_render_failure')\n    if hook is not None:\n        hook(request, _error)\n" + _DRE))
+
+# ---------------------------------------------------------------------------------------------- converting an uncaught exception of any type (R06.f / R08.a)
+_ISE = ("        if self.error_type is None:\n            try:\n                exc_type_name = self.exc_info.exc_type\n"
+        "                exc_type = getattr(exceptions, exc_type_name)\n                self.error_type = STDLIB_EXC_URL + exc_type.__name__\n"
+        "            except Exception:\n                pass\n")
+_ISE_IF = "        if self.error_type is None and self.exc_info is not None:\n"
+_RULES_F = {'C06': 'R06.f', 'C08': 'R08.a'}
+T('pB4_twin_exc_type_lookup_with_default', ['C06', 'C08'],
+  (E, _ISE, _ISE_IF + "            exc_type = getattr(exceptions, self.exc_info.exc_type, None)\n            if exc_type is not None:\n"
+                      "                self.error_type = STDLIB_EXC_URL + exc_type.__name__\n"))
+T('pB4_twin_exc_type_lookup_narrow_handler', ['C06', 'C08'], (E, _ISE, _ISE.replace('except Exception:', 'except AttributeError:')))
+B('pB4_exc_type_lookup_without_a_net', ['C06', 'C08'], _RULES_F,
+  (E, _ISE, _ISE_IF + "            exc_type = getattr(exceptions, self.exc_info.exc_type)\n            self.error_type = STDLIB_EXC_URL + exc_type.__name__\n"))
+B('pB4_exc_type_lookup_in_the_module_dict', ['C06', 'C08'], _RULES_F,
+  (E, _ISE, _ISE_IF + "            exc_type = vars(exceptions)[self.exc_info.exc_type]\n            self.error_type = STDLIB_EXC_URL + exc_type.__name__\n"))
+B('pB4_exc_type_lookup_in_the_handler_method', ['C06', 'C08'], _RULES_F,
+  (E, "        exc_info = eh.exc_info_type.from_current()\n        return eh.server_error_type(repr(exc_info),\n",
+      "        exc_info = eh.exc_info_type.from_current()\n        known = getattr(exceptions, exc_info.exc_type)\n"
+      "        return eh.server_error_type(known.__doc__ or repr(exc_info),\n"))
